@@ -88,3 +88,22 @@ Theorem C13_token_end_line_counts_the_line_feeds input ts t :
   lex_all input = Some ts -> In t ts -> exists e, tel t = fst (lc input e).
 Proof. exact (token_line_counts_line_feeds input ts t). Qed.
 Print Assumptions C13_token_end_line_counts_the_line_feeds.
+
+(* ---- from the source bytes (Proofs/ErrorLinePipeline.v): any text T - any number of lines - followed by
+   {{ name }} with name unbound fails with "identifier not found" at line 1 + (line feeds in T): the
+   line on which the identifier stands, with the exact message *)
+From TW Require Import Eval Render ExprSem LexSpell ErrorLinePipeline.
+
+Theorem C13_undefined_identifier_is_reported_at_its_line T name gd en :
+  und_ok T name = true -> env_from_map gd = EnvOk en -> env_get en name = None ->
+  evaluate_string cx0 (und_source T name) gd =
+    RenderErr (S (count_lf T)) (fmt ErrIdentifierNotFound [name]).
+Proof. exact (undefined_identifier_error_line T name gd en). Qed.
+Print Assumptions C13_undefined_identifier_is_reported_at_its_line.
+
+Definition nl13 := String (Ascii.ascii_of_nat 10) EmptyString.
+Example C13_from_source_example :
+  let T := bs ("<h1>title</h1>" ++ nl13 ++ "<p>c:\dir \{{ not code }}" ++ nl13 ++ nl13 ++ "  ")%string in
+  und_ok T (bs "user") = true /\ count_lf T = 3%nat /\
+  evaluate_string cx0 (und_source T (bs "user")) [] = RenderErr 4 (bs "identifier 'user' not found").
+Proof. repeat split; vm_compute; reflexivity. Qed.
